@@ -472,8 +472,9 @@ def apply_pre(leaves, steps, tree=None):
             if f.valid.dtype != np.bool_ or f.valid.shape != tuple(int(v) for v in f.mesh.n):
                 bad.append("not-boolean")
             if isinstance(what, str):
-                # small-integer values: non-zero <=> length far above 1e-8 (on the CURRENT values)
-                if not np.array_equal(f.valid, np.any(f.array != 0, axis=-1)):
+                # values are 0, integers or of size 1e-12: far from the 1e-8 threshold (on the CURRENT values)
+                length = np.sqrt((np.abs(f.array.astype(complex)) ** 2).sum(axis=-1))
+                if not np.array_equal(f.valid, length > 1e-8):
                     bad.append("norm-not-from-current-values")
             elif isinstance(what, np.ndarray) and not np.array_equal(f.valid, what):
                 bad.append("array-not-applied")
